@@ -227,8 +227,11 @@ def check_case(case, ctx):
                 if th == "stR":
                     kw["as_operators"] = as_ops
                 if th == "cRF":
+                    # (a coupling exactly at the cut-off sits on a discontinuity: the rounding noise of a basis round
+                    # trip of the Hamiltonian then decides whether it is removed - not a dependence on history)
+                    cut = 60.0 if all(abs(abs(x) - 60) > 1e-6 for row in case["spec"]["J"] for x in row) else 60.5
                     with qr.energy_units("1/cm"):
-                        RT, hret = pool.agg.get_RelaxationTensor(pool.ta, coupling_cutoff=60.0, **kw)
+                        RT, hret = pool.agg.get_RelaxationTensor(pool.ta, coupling_cutoff=cut, **kw)
                 else:
                     RT, hret = pool.agg.get_RelaxationTensor(pool.ta, **kw)
                 pool.slots[op["slot"]] = (RT, hret, key)
